@@ -17,7 +17,8 @@ Schemas (`supportedSchema`):
 * type names and directive names pairwise distinct and listed in increasing order (what the
   harness serialiser produces from gqlparser's maps);
 * every `@deprecated` application gives its `reason`;
-* the root operation types are the types named `Query` / `Mutation` / `Subscription`.
+* the root operation types are the types named `Query` / `Mutation` / `Subscription`;
+* every directive definition has at least one location (the grammar requires it).
 -/
 namespace PebblesVerif.Spec
 open PebblesVerif
@@ -115,6 +116,6 @@ def strictlySorted (names : List String) : Bool := decide (names.Pairwise (· < 
 
 def supportedSchema (S : Schema) : Bool :=
   strictlySorted (S.types.map (·.name)) && strictlySorted (S.directives.map (·.name))
-    && reasonsGiven S && defaultRoots S
+    && reasonsGiven S && defaultRoots S && S.directives.all (fun d => !d.locations.isEmpty)
 
 end PebblesVerif.Spec
